@@ -196,6 +196,13 @@ class Interp:
         from . import models
         if issubclass(cls, BaseException):
             return ExcValue(cls, tuple(args))
+        import enum
+        if issubclass(cls, enum.Enum) and not deep_has_sym(args) and not kwargs:
+            # Enum lookup by value: the member itself (identity matters for `is` tests)
+            try:
+                return cls(*args)
+            except Exception as e:
+                raise SymRaise(ExcValue(type(e), e.args), node)
         if is_repo_class(cls):
             import dataclasses
             obj = SymObj(cls)
